@@ -61,6 +61,28 @@ def mkCondId (be : Backend α) (diag : Bool) (Sigma Lambda : Option (Arr R (Mat 
 def CondIdB.toCond (c : CondIdB R D α) : CondB R D D α :=
   ⟨c.diag, tab fun _ => eye, tab fun _ => zeroV, c.Sigma, c.Lambda, c.lnDetSigma⟩
 
+/-! ## `NNControlGaussianConditional` -/
+
+/-- `NNControlGaussianConditional.set_control_variable(u)` given `out = control_func(u)`
+(`[R, Dy*(Dx+1)]`): `M = out[:, :Dy*Dx].reshape(-1, Dy, Dx)`, `b = out[:, Dy*Dx:]`, covariance
+arrays tiled over the `R` control inputs.  `nn` carries `Sigma`, `Lambda`, `ln_det_Sigma` of the
+NN-conditional (its `M`, `b` are unused placeholders). -/
+def nnSetControl {Ru : Nat} (nn : CondB 1 Dy Dx α) (out : Arr Ru (Vec (Dy * Dx + Dy) α)) :
+    CondB Ru Dy Dx α :=
+  ⟨false,
+   tab3 fun r i j => out r ⟨i.1 * Dx + j.1, by
+     have h1 : i.1 * Dx + j.1 < i.1 * Dx + Dx := Nat.add_lt_add_left j.2 _
+     have h2 : i.1 * Dx + Dx = (i.1 + 1) * Dx := by rw [Nat.add_mul, Nat.one_mul]
+     have h3 : (i.1 + 1) * Dx ≤ Dy * Dx := Nat.mul_le_mul_right Dx i.2
+     omega⟩,
+   tab2 fun r i => out r ⟨Dy * Dx + i.1, by omega⟩,
+   tab fun _ => nn.Sigma 0, tab fun _ => nn.Lambda 0, tab fun _ => nn.lnDetSigma 0⟩
+
+/-- `NNControlGaussianConditional(Sigma=…)`: `Lambda, ln_det_Sigma = invert_matrix(Sigma)` -/
+def mkNNCond (be : Backend α) (Sigma : Arr 1 (Mat Dy Dy α)) : CondB 1 Dy Dx α :=
+  let (L, ld) := invertBatch be false Sigma
+  ⟨false, tab fun _ => zeroM, tab fun _ => zeroV, Sigma, L, ld⟩
+
 /-! ## slice, update_Sigma -/
 
 def CondB.slice {N : Nat} (c : CondB R Dy Dx α) (idx : Fin N → Int) : CondB N Dy Dx α :=
